@@ -117,6 +117,7 @@ pub fn emit(out: &mut Out, worker: &mut Worker, text: &str, rng: &mut Rng, thoro
     let mut stats = (0u64, 0u64, 0u64, 0u64, 0u64, 0u64); // clean, with errors, multi-error, slow, hang, repairs
     let mut hfail: Option<String> = None;
     let mut several = 0u64; // errors with >= 2 sequences: where the order of the reported list matters
+    let mut irs: Vec<String> = Vec::new();
     for w in &inputs {
         if !lr_terminates(&g, &st, w, 400 * (w.len() + 2)) {
             if which == 7 {
@@ -127,7 +128,14 @@ pub fn emit(out: &mut Out, worker: &mut Worker, text: &str, rng: &mut Rng, thoro
         }
         body.extend(plist(w).split(' ').map(|x| x.parse::<usize>().unwrap()));
         n += 1;
-        match worker.parse(text, w, true, Some(&costs), std::time::Duration::from_millis(3000)) {
+        let mut res = worker.parse(text, w, true, Some(&costs), std::time::Duration::from_millis(3000));
+        if matches!(res, WResult::Hang) {
+            // a parse that really does not return does so again; anything else (the worker process was
+            // lost for a reason outside the parse) does not count as a hang
+            out.count("hang_retried");
+            res = worker.parse(text, w, true, Some(&costs), std::time::Duration::from_millis(6000));
+        }
+        match res {
             WResult::Ok(p) if p.wall_ms < 450 => {
                 body.push(1);
                 match &p.tree {
@@ -138,7 +146,13 @@ pub fn emit(out: &mut Out, worker: &mut Worker, text: &str, rng: &mut Rng, thoro
                     None => body.push(0),
                 }
                 body.push(p.errors.len());
-                for e in &p.errors {
+                for (j, e) in p.errors.iter().enumerate() {
+                    if which == 6 {
+                        // the tie with the full Lean model of `CPCTPlus::recover`: the reported list, in order
+                        let seqs: Vec<String> = e.repairs.iter().map(|s| s.join(" ")).collect();
+                        let l = if seqs.is_empty() { "none".to_string() } else { seqs.join(" ; ") };
+                        irs.push(format!("{} {} {} {} : {}", n - 1, j, e.laidx, e.state, l));
+                    }
                     body.extend([e.laidx, e.state, e.repairs.len()]);
                     for s in &e.repairs {
                         body.extend(enc_seq(s));
@@ -198,6 +212,9 @@ pub fn emit(out: &mut Out, worker: &mut Worker, text: &str, rng: &mut Rng, thoro
     match hfail {
         None => out.imp(id, "H", "ok"),
         Some(e) => out.imp(id, "H", &format!("fail {}", e)),
+    }
+    for l in &irs {
+        out.imp(id, "Ir", l);
     }
     let desc = format!("grammar=[{}] costs={:?} inputs={}", text.replace('\n', " ").trim(), costs, n);
     out.imp(id, "D", &desc);
@@ -343,6 +360,72 @@ fn alt_family(rng: &mut Rng) -> (String, Vec<Vec<u32>>) {
     (text, inputs)
 }
 
+/// precedence expression grammars: binary operators with %left/%right/%nonassoc levels (the
+/// shift/reduce conflicts are all settled by precedence, so the table is a proper LR table whose
+/// error cells include the ones %nonassoc created and whose reduce cells include ones that won against
+/// a shift), optional parentheses and a prefix operator with %prec. Inputs chain operators (the
+/// %nonassoc ones twice in a row), drop operands and drop operators, so that errors are detected in
+/// states entered by a goto that have precedence-resolved cells.
+fn prec_family(rng: &mut Rng) -> (String, Vec<Vec<u32>>, Vec<u8>) {
+    let k = rng.range(2, 4) as u32;
+    let parens = rng.chance(1, 2);
+    let prefix = rng.chance(1, 3);
+    // token numbering by first appearance in the productions: o0..o(k-1), n, then ( ) and m
+    let n_tok = k;
+    let mut next = k + 1;
+    let (lp, rp) = if parens { next += 2; (next - 2, next - 1) } else { (0, 0) };
+    let m_tok = if prefix { next += 1; next - 1 } else { 0 };
+    let ntoks = next as usize;
+    let mut order: Vec<u32> = (0..k).collect();
+    for i in (1..order.len()).rev() {
+        order.swap(i, rng.below(i + 1));
+    }
+    let mut text = String::from("%start E\n");
+    let mut any_nonassoc = false;
+    for (i, o) in order.iter().enumerate() {
+        let kind = if i + 1 == order.len() && !any_nonassoc && rng.chance(2, 3) { "%nonassoc" } else { *rng.pick(&["%left", "%right", "%nonassoc", "%left"]) };
+        if kind == "%nonassoc" {
+            any_nonassoc = true;
+        }
+        text.push_str(&format!("{} 'o{}'\n", kind, o));
+    }
+    text.push_str("%%\nE: ");
+    let mut alts: Vec<String> = (0..k).map(|o| format!("E 'o{}' E", o)).collect();
+    alts.push("'n'".to_string());
+    if parens {
+        alts.push("'(' E ')'".to_string());
+    }
+    if prefix {
+        alts.push(format!("'m' E %prec 'o{}'", order[rng.below(order.len())]));
+    }
+    text.push_str(&alts.join(" | "));
+    text.push_str(";\n");
+    let mut inputs: Vec<Vec<u32>> = Vec::new();
+    for a in 0..k {
+        for b in 0..k {
+            inputs.push(vec![n_tok, a, n_tok, b, n_tok]);
+            inputs.push(vec![n_tok, a, n_tok, b, n_tok, b, n_tok]);
+            inputs.push(vec![n_tok, a, b, n_tok, a, n_tok]);
+            inputs.push(vec![n_tok, a, n_tok, n_tok, b, n_tok]);
+        }
+        inputs.push(vec![n_tok, a, n_tok, a]);
+        if parens {
+            inputs.push(vec![lp, n_tok, a, n_tok, a, n_tok, rp, a, n_tok]);
+            inputs.push(vec![lp, n_tok, a, n_tok, a, n_tok]);
+        }
+        if prefix {
+            inputs.push(vec![m_tok, n_tok, a, n_tok, a, m_tok, n_tok]);
+        }
+    }
+    for i in (1..inputs.len()).rev() {
+        inputs.swap(i, rng.below(i + 1));
+    }
+    inputs.truncate(12);
+    let mode = rng.below(3);
+    let costs: Vec<u8> = (0..ntoks + 1).map(|_| match mode { 0 => 1, 1 => *rng.pick(&[1u8, 1, 2]), _ => *rng.pick(&[1u8, 2, 3]) }).collect();
+    (text, inputs, costs)
+}
+
 /// inputs with a long error-free tail (beyond the ranking window of the recoverer)
 fn long_tail_cases() -> Vec<(&'static str, Vec<Vec<u32>>)> {
     // tokens by first appearance: '+' 0, '*' 1, '(' 2, ')' 3, 'n' 4
@@ -412,11 +495,30 @@ pub fn run_prop(a: &Args, prop: &str, pnum: u64) {
             let w0: &[&[u32]] = &[&[], &[0]];
             emit(&mut out, &mut worker, &g, &mut rng, a.thorough, "witness", prop, Some((w0, 1)), None);
         }
+        {
+            // more than a hundred independent, repairable errors in one input: every one is reported with
+            // its repairs and the parse still returns a value (tokens: a 0, b 1, c 2, d 3, ; 4)
+            let mut w: Vec<u32> = Vec::new();
+            for i in 0..160 {
+                if i % 5 == 4 {
+                    w.extend([0u32, 1, 2, 3, 4]);
+                } else {
+                    w.extend([0u32, 2, 3, 4]);
+                }
+            }
+            let ws: &[&[u32]] = &[&w[..]];
+            emit(&mut out, &mut worker, "%start P\n%%\nP: | P S; S: 'a' 'b' 'c' 'd' ';';", &mut rng, a.thorough, "many_errors", prop, Some((ws, 1)), None);
+        }
         // minimised past failures: (grammar, inputs) with unit costs
         let w1: &[&[u32]] = &[&[2, 0, 0], &[2, 0, 0, 0], &[2, 0]];
         emit(&mut out, &mut worker, "%start R0\n%%\nR0: R0 't0' | 't2' 't1';", &mut rng, a.thorough, "witness", prop, Some((w1, 1)), None);
         let w2: &[&[u32]] = &[&[2, 2, 2, 2], &[2, 2, 2], &[2, 2, 2, 2, 0]];
         emit(&mut out, &mut worker, "%start R0\n%%\nR0: R0 't0' | R0 't2' | 't1' 't1' R1; R1: R0 't1' 't0' | R1 't0' | 't1';", &mut rng, a.thorough, "witness", prop, Some((w2, 1)), None);
+        // an error in a goto-entered state whose reduce won a shift/reduce conflict by precedence: the
+        // cheapest repairs insert the lower-precedence operator there (tokens: AND 0, LT 1, N 2)
+        let w4: &[&[u32]] = &[&[2, 1, 2, 1, 2], &[2, 1, 2, 1, 2, 0, 2]];
+        emit(&mut out, &mut worker, "%start E\n%left 'AND'\n%nonassoc 'LT'\n%%\nE: E 'AND' E | E 'LT' E | 'N';", &mut rng, a.thorough, "witness", prop, Some((w4, 1)), None);
+        emit(&mut out, &mut worker, "%start E\n%left 'AND'\n%nonassoc 'LT'\n%%\nE: E 'AND' E | E 'LT' E | 'N';", &mut rng, a.thorough, "witness", prop, Some((w4, 1)), Some(vec![1, 1, 3, 1]));
         // a Delete-ended and an Insert-ended search node reach the same stack and position
         let w3: &[&[u32]] = &[&[0, 5, 3, 3, 3], &[0, 5, 3, 3], &[0, 5]];
         emit(&mut out, &mut worker, "%start S\n%%\nS: 'a' M 't' 'w' 'k' 'k' 'k'; M: | 'u' 'y';", &mut rng, a.thorough, "witness", prop, Some((w3, 1)), None);
@@ -439,6 +541,12 @@ pub fn run_prop(a: &Args, prop: &str, pnum: u64) {
             let (t, ws) = alt_family(&mut rng);
             let refs: Vec<&[u32]> = ws.iter().map(|w| &w[..]).collect();
             emit(&mut out, &mut worker, &t, &mut rng, a.thorough, "alt_family", prop, Some((&refs, 1)), None);
+            continue;
+        }
+        if case % 8 == 6 {
+            let (t, ws, costs) = prec_family(&mut rng);
+            let refs: Vec<&[u32]> = ws.iter().map(|w| &w[..]).collect();
+            emit(&mut out, &mut worker, &t, &mut rng, a.thorough, "prec_family", prop, Some((&refs, 1)), Some(costs));
             continue;
         }
         if case % 4 == 1 {
